@@ -282,12 +282,14 @@ class QueryBoom(Exception):
     pass
 
 
-def make_query(q, qraise=None):
+def make_query(q, qraise=None, style=0):
     def query(path, key, value):
         p, k, s = [key_tok(x) for x in path], key_tok(key), shallow(value)
         if qraise is not None and eval_pred(qraise, p, k, s):
             raise QueryBoom()
-        return eval_pred(q, p, k, s)
+        r = eval_pred(q, p, k, s)
+        # "returns a bool": any truthy / falsy object counts
+        return [r, 1 if r else 0, "x" if r else "", [0] if r else [], r, (None,) if r else None][style % 6]
     return query
 
 
@@ -323,7 +325,7 @@ def run_impl(case):
     entries = []
     try:
         kw = {} if case.get("qreraise") is None else {"reraise": case["qreraise"]}
-        found = research(root, make_query(case["query"], case.get("qraise")), **kw)
+        found = research(root, make_query(case["query"], case.get("qraise"), case.get("style", 0) // 6), **kw)
     except TypeError:
         found = None
         obs["research"] = ["raise", "TypeError"]
@@ -339,7 +341,9 @@ def run_impl(case):
             entries.append([[key_tok(x) for x in path], ref_of(value), got])
         obs["research"] = ["ok", entries]
     probes = []
-    sentinel = object()
+    # the default= argument: an arbitrary object, or a falsy one (a default is a value, not a flag)
+    # (fresh objects, so that `is` cannot confuse the default with a value of the graph)
+    sentinel = [object(), [], {}, 0j, set(), bytearray()][case.get("style", 0) % 6]
     for pth in case.get("probes", []):
         tp = tuple(keyobj(k) for k in pth)
         if pth and case.get("dotted") and all(type(x) is str and "." not in x for x in tp):
@@ -686,12 +690,49 @@ def gen_probes(rng, nodes, root, count, dotted=False):
     return out
 
 
+def gen_deep(rng, depth):
+    """a chain of `depth` nested containers (kinds in rotation, a few siblings), with back-edges from the
+    bottom to far ancestors and a shared sub-object: stresses path bookkeeping far from the root"""
+    nodes = []
+    for d in range(depth):
+        kind = rng.choice(["list", "dict", "tuple", "list", "dict"])
+        nodes.append({"k": kind, "c": []})
+    extra = len(nodes)
+    nodes.append({"k": "list", "c": [["L", gen_leaf(rng)]]})          # shared by several levels
+    for d in range(depth):
+        kids = []
+        if rng.random() < 0.3:
+            kids.append(["L", gen_leaf(rng)])
+        if d + 1 < depth:
+            kids.append(["N", d + 1])
+        else:
+            # bottom: back-edges to mutable ancestors
+            for _ in range(3):
+                j = rng.randrange(depth)
+                if nodes[j]["k"] in MUTABLE:
+                    kids.append(["N", j])
+        if rng.random() < 0.15:
+            kids.append(["N", extra])
+        rng.shuffle(kids)
+        if nodes[d]["k"] == "dict":
+            ks = rng.sample([["I", 0], ["T", 0], ["N"], ["T", 9], ["S", 1], ["T", 2]], len(kids))
+            nodes[d]["c"] = [[k, r] for k, r in zip(ks, kids)]
+        else:
+            nodes[d]["c"] = kids
+    return nodes, ["N", 0]
+
+
 def generate(rng, tier, n):
     if tier == "thorough":
         yield from small_graphs()
     for i in range(n):
         if rng.random() < 0.015:
             nodes, root = [], ["L", gen_leaf(rng)]
+        elif rng.random() < 0.03:
+            while True:
+                nodes, root = gen_deep(rng, rng.choice([15, 30, 60, 100] if tier == "thorough" else [15, 30, 60]))
+                if buildable(nodes):
+                    break
         else:
             big = tier == "thorough" and rng.random() < 0.3
             while True:
@@ -704,7 +745,7 @@ def generate(rng, tier, n):
         yield {"nodes": nodes, "root": root, "visit": prog,
                "reraise": rng.choice([None, True, False, False, False] if raises else [None, None, True, False]),
                "query": ["true"] if rng.random() < 0.35 else gen_pred(rng), "dc": rng.random() < 0.3,
-               "dotted": dotted,
+               "dotted": dotted, "style": rng.randrange(36),
                "qraise": gen_pred(rng, 1) if rng.random() < 0.2 else None,
                "qreraise": rng.choice([None, None, False, True]),
                "probes": gen_probes(rng, nodes, root, rng.randint(0, 4), dotted)}
